@@ -295,6 +295,19 @@ def gen_c09(rnd, n, thorough=False):
         wk, frm, until = window(rnd, layout)
         if kind in ('layout_points',) and rnd.chance(0.6):
             wk, frm, until = 'narrow', '@-%d' % rnd.randint(2, layout[0][0] * layout[0][1] - 1), '0'   # inside every retention
+        if kind in ('copy', 'few_differ') and rnd.chance(0.35):
+            # one side was written by a clock a little ahead of the comparing one: it holds points stamped with slots that
+            # lie after the clock (they overlay the oldest slots of the ring); the window's oldest slots are then empty
+            # on that side, whatever the ring holds there physically
+            who = rnd.pick(['s/a.wsp', dest])
+            ahead = []
+            for a_, (S_, N_) in enumerate(layout):
+                if rnd.chance(0.7):
+                    q_ = rnd.randint(1, 3)
+                    ahead.append("many %s %d @+%d %d %s" % (who, a_, q_ * S_, q_, " ".join("@+%d %016x" % (j_ * S_, fbits(float(70 + a_ + j_))) for j_ in range(1, q_ + 1))))
+            if ahead:
+                lines = lines + ["open %s" % who] + ahead + ["sync %s" % who, "drop %s" % who]
+                wk, frm, until = 'default', '0', '0'
         arch = rnd.pick([-1, -1, -1] + list(range(k)) + [k])
         if kind.startswith('missing'):
             # a missing side together with another failure of the other side is reported as whichever
@@ -446,7 +459,7 @@ def gen_c10(rnd, n, thorough=False):
         k = len(layout)
         m, xff = rnd.pick(METHODS), 0x3f000000
         nfiles = rnd.pick([1, 2, 3, 3, 5, 12 if thorough else 6])
-        items = rnd.pick([['i1'], ['i1', 'i2'], ['a.b']])
+        items = rnd.pick([['i1'], ['i1', 'i2'], ['a.b'], ['i+1', 'i&2'], ['i=3']])      # (names special in a query string)
         kind = rnd.pick(['plain', 'plain', 'holes', 'all_nan_column', 'odd_last', 'odd_first', 'odd_middle', 'nomatch_item', 'nomatch_file', 'order', 'one_unreadable', 'first_fresh'])
         odd = None
         if kind.startswith('odd') and nfiles >= 2:
@@ -687,6 +700,16 @@ def gen_c18(rnd, n, thorough=False):
                       "cliabort file=s/a.wsp path=view", "cliviewraw src=s:small.wsp from=0 until=0 archive=-1 header=1 sort=1 remote=1"]
             cases.append({'id': 'c18-%d' % c, 'lines': lines, 'tags': {'layout': 'big%d' % N}})
             continue
+        if c == 4:
+            # a file whose finest archive was never written while a coarser one holds data (back-filled, or written with
+            # an explicit archive id): view-raw of all archives shows those slots, as view and view-raw of that archive do
+            lname = rnd.pick(['two_1s', 'three_2s', 'three_1s'])
+            layout = CLI_LAYOUTS[lname]
+            kk = len(layout)
+            el = fill_ops(rnd, 's/a.wsp', layout, 2, 0x3f000000, density=0.7, inconsistent=True, only=[kk - 1])
+            el += ["cliviewraw src=s:a.wsp from=0 until=0 archive=-1 header=%d sort=%d remote=%d" % (rnd.pick([0, 1]), rnd.pick([0, 1]), rem) for rem in (0, 1)]
+            el += ["cliviewraw src=s:a.wsp from=0 until=0 archive=%d header=0 sort=1" % (kk - 1), "cliview src=s:a.wsp from=0 until=0 archive=-1 header=1"]
+            cases.append({'id': 'c18-%d-coarseonly' % c, 'lines': el, 'tags': {'layout': lname, 'window': 'default', 'fill': 'coarsest_only'}})
         if c == 5:
             # windows that end exactly where the retention of an archive begins (and a second or two later: the command
             # reads its own clock), on densely written archives
@@ -1199,6 +1222,14 @@ def gen_c16(rnd, n, thorough=False):
         cases.append({'id': 'c16-%d' % c, 'lines': lines, 'tags': {'layout': lname, 'src': srckind, 'dest': destkind, 'sub': hist}})
         if c == 1:
             cases.append(many_files_case(rnd, 'c16-%d-many' % c, ['sum', 'sumcopy', 'sumdiff']))     # (sum-diff after sum-copy: with a missing destination AND an unreadable source, which of the two concurrent failures is reported is not determined)
+    # retention definitions with a zero step or a zero retention, for every command that takes -retentions: a usage
+    # error, never a panic
+    ll = []
+    for rt in ['0s:1d', '0:60', '0s:0s', '1s:0s', '1s:1m,0s:1h', '0m:1h', '1s:1m,1m:0h']:
+        ll.append('cliargs generate %s' % ' '.join(a.encode().hex() for a in ['-dest', 'g.wsp', '-agg-method', 'sum', '-retentions', rt]))
+        ll.append('cliargs copy %s' % ' '.join(a.encode().hex() for a in ['-src-base', '/data', '-src', 'a.wsp', '-dest-base', '/d', '-agg-method', 'sum', '-retentions', rt]))
+        ll.append('cliargs sum-copy %s' % ' '.join(a.encode().hex() for a in ['-item', 'i*', '-src-base', '/data', '-src', '*.wsp', '-dest-base', '/d', '-dest', 'sum.wsp', '-agg-method', 'sum', '-retentions', rt]))
+    cases.append({'id': 'c16-zeroprecision', 'lines': ll, 'tags': {'layout': 'args', 'src': 'ok', 'dest': 'missing', 'sub': {'args': len(ll)}}})
     # the source AND the existing destination are rejected by Open (two failures: which one is reported is not
     # compared): the command returns an error -- it does not panic
     for j in range(2):
@@ -1311,6 +1342,18 @@ def gen_c05_cli(rnd, n, thorough=False):
                 m, xff, lay_csv(layout)), "disk e/i1/sum.wsp"]
             observe_all(lines, 'e/i1/sum.wsp', other)
         cases.append({'id': 'c05-cli-%d' % c, 'lines': lines, 'tags': {'layout': 'big', 'ops': {'cli_refused_write': 1}}})
+        if c % 2 == 1:
+            # a run over several files: the destination of an earlier file has to be created, the existing destination of a
+            # later file is refused (another layout): the run fails, and that existing destination is as it was
+            l2 = CLI_LAYOUTS[rnd.pick(['two_1s', 'three_2s'])]
+            gl = []
+            for nm in ('g/x/a.wsp', 'g/y/a.wsp', 'g/y/b.wsp'):
+                gl += fill_ops(rnd, nm, l2, m, xff, density=0.5, inconsistent=False)
+            later = rnd.pick(['h/y/a.wsp', 'h/y/b.wsp'])
+            gl += fill_ops(rnd, later, [(s_, nn + 2) for s_, nn in l2], m, xff, density=0.4, inconsistent=False)
+            gl += ["snap %s" % later, "clicopy src=g:*/*.wsp dest=h: from=0 until=0 archive=-1 copynan=0 m=%d x=%08x layout=%s" % (m, xff, lay_csv(l2)), "disk %s" % later]
+            observe_all(gl, later, [(s_, nn + 2) for s_, nn in l2])
+            cases.append({'id': 'c05-cli-%d-globfail' % c, 'lines': gl, 'tags': {'layout': 'glob', 'ops': {'cli_glob_failure_after_creation': 1}}})
         if c % 2 == 0:
             # an existing destination that cannot be opened (what a Create without Sync leaves behind: zeros) and a
             # source that does not exist: the command fails -- which failure it reports is not compared --, and the
@@ -1336,7 +1379,7 @@ ARG_VALUES = {
     'item': ['i*', 'a.b', '*', ''],
     'agg-method': ['sum', 'average', 'last', 'max', 'min', 'first', 'mix', 'percentile', 'bogus', 'Sum', '', 'avg'],
     'x-files-factor': ['0.5', '0', '1', '0.5000000298023224', '0.2500000149011611938476562501', '0.7500000298023223876953126', '0.10000000149011612', '0.30000001192092896', '1.5', '-0.1', 'NaN', 'abc', '1e-3', '0x1p-1', '+0.25', '.5', '1_0', '', '-0', '1.0000001', '1.00000001', 'Inf', '1e-50'],
-    'retentions': ['1s:1m', '1m:1h,1h:1d', '1s:5s,5s:1m,1m:1h', '1s:1m,1m:30s', '', '1s:49711d', '1s:137y', '2s:7102w', '1s:1m,2s:49711d', '1s:1193047h', '1s:71582789m', '1s:24856d', '1s', '60:1440', '1s:1m,', '2s:1m,3s:2m', '1m:1y'],
+    'retentions': ['0s:1d', '0:60', '0s:0s', '1s:0s', '1s:1m,0s:1h', '1s:1m', '1m:1h,1h:1d', '1s:5s,5s:1m,1m:1h', '1s:1m,1m:30s', '', '1s:49711d', '1s:137y', '2s:7102w', '1s:1m,2s:49711d', '1s:1193047h', '1s:71582789m', '1s:24856d', '1s', '60:1440', '1s:1m,', '2s:1m,3s:2m', '1m:1y'],
     'from': ['2020-01-01T00:00:00Z', '1970-01-01T00:00:00Z', '2106-02-07T06:28:15Z', '2106-02-07T06:28:16Z', '2020-13-01T00:00:00Z', '2020-01-01', '',
              '2020-01-01T0:00:00Z', '2020-01-01T00:00:00.000Z', '2020-01-01T00:00:00.5Z', '2021-06-30T12:00:00Z', '1969-12-31T23:59:59Z', '2020-02-30T00:00:00Z', '0'],
     'archive': ['0', '1', '-1', '+2', '007', '08', '0x10', '0b11', '0o17', 'abc', '', '9223372036854775807', '9223372036854775808', '-9223372036854775808',
